@@ -210,8 +210,8 @@ def representable(spec):
             ids.add(e["uid"])
             ids.add(e["gid"])
     ids.add(0)
-    if len(ids) > 65536:
-        return "more than 65536 distinct ids"
+    if len(ids) > 65535:
+        return "more than 65535 distinct ids (id_count is 16 bit)"
     return None
 
 
